@@ -610,6 +610,26 @@ def _run_classic(case, entry, klass, ctx):  # noqa: C901
                                     rot_hash=got_hash if got_hash is not None else None, model_hash=want_hash, witness=witness)
     finally:
         os.remove(dcpath)
+    if rng.random() < 0.4:
+        # one credential object serves a series of devices: another UUID, signed again, exported again - every credential of
+        # the series is signed over ITS fields
+        uuid2 = core.rand_bytes(rng, 16)
+        try:
+            dc.uuid = uuid2
+            dc.sign()
+            data2 = dc.export()
+        except SPSDKError as e:
+            ctx.note("dc_resign_refused", core.exc_brief(e))
+            data2 = None
+        if data2 is not None:
+            ctx.count("dc_signed_again_for_another_device")
+            body2 = R.build_dc_body(klass, version, entry["socc"], uuid2, cc_socu, cc_vu, beacon, keys, used, dck, ca)
+            w2 = dict(witness, second_uuid=uuid2)
+            if data2[:-slen] != body2:
+                _viol(ctx, "dc-signed-again:body-differs-from-model", dict(w2, got=data2[:64], want=body2[:64]))
+            elif not R.verify(keys[used], body2, data2[-slen:], pss=pss):
+                _viol(ctx, "dc-signed-again:signature-does-not-verify-over-the-new-fields",
+                      dict(w2, verifies_over_the_first_fields=R.verify(keys[used], body, data2[-slen:], pss=pss)))
     ctx.ok(sig, sample={"family": family, "revision": rev, "class": klass, "version": list(version), "rot_keys": names, "used": used,
                         "dck": dck_name, "uuid": uuid, "cc_socu": cc_socu, "cc_vu": cc_vu, "cc_beacon": beacon, "dc_len": len(data),
                         "signature_verified": sig_ok, "rot_hash": want_hash})
